@@ -228,3 +228,54 @@ pub fn run_validate13(schema: &s::Document, doc: &q::Document, codes: &[String])
     out.push(format!("DEFAULTPLAN {}", if dp == ALL_RULES { "ok" } else { "BAD" }));
     out
 }
+
+// ---------------------------------------------------------------- C12: purity
+fn canon_full(errs: &[ValidationError]) -> Vec<String> {
+    canon_runs(errs)
+}
+
+/// history: docs[0] is the document under test, the others are validated before / around it with
+/// the same plan and schema; threads: the same on 16 threads sharing &plan and &schema.
+pub fn run_purity(schema: &s::Document, docs: &[q::Document], codes: &[String]) -> Vec<String> {
+    let plan = plan_of(codes);
+    let schema_before = schema.clone();
+    let docs_before: Vec<q::Document> = docs.to_vec();
+    // reference: a fresh plan for every document
+    let reference: Vec<Vec<String>> = docs.iter().map(|d| canon_full(&validate(schema, d, &plan_of(codes)))).collect();
+    let first = validate(schema, &docs[0], &plan);
+    let mut out = vec!["OK".to_string()];
+    out.extend(render_errors(&first));
+    // one shared plan, the whole history, twice, forwards and backwards
+    let mut history_ok = true;
+    for round in 0..2 {
+        let order: Vec<usize> = if round == 0 { (0..docs.len()).collect() } else { (0..docs.len()).rev().collect() };
+        for i in order {
+            if canon_full(&validate(schema, &docs[i], &plan)) != reference[i] {
+                history_ok = false;
+            }
+        }
+    }
+    out.push(format!("HISTORY {}", if history_ok { "ok" } else { "BAD" }));
+    // 16 threads, each validating all documents (rotated start), sharing &plan / &schema
+    let threads_ok = std::sync::atomic::AtomicBool::new(true);
+    std::thread::scope(|sc| {
+        for t in 0..16usize {
+            let plan = &plan;
+            let reference = &reference;
+            let threads_ok = &threads_ok;
+            sc.spawn(move || {
+                for k in 0..docs.len() * 3 {
+                    let i = (k + t) % docs.len();
+                    if canon_full(&validate(schema, &docs[i], plan)) != reference[i] {
+                        threads_ok.store(false, std::sync::atomic::Ordering::SeqCst);
+                    }
+                }
+            });
+        }
+    });
+    out.push(format!("THREADS {}", if threads_ok.load(std::sync::atomic::Ordering::SeqCst) { "ok" } else { "BAD" }));
+    let unchanged = *schema == schema_before && docs.iter().zip(docs_before.iter()).all(|(a, b)| a == b) && plan.rules.len() == codes.len()
+        && plan.rules.iter().zip(codes.iter()).all(|(r, c)| r.error_code() == c.as_str());
+    out.push(format!("UNCHANGED {}", if unchanged { "ok" } else { "BAD" }));
+    out
+}
